@@ -38,6 +38,13 @@ pub struct Scn {
     /// the FDT packets' EXT_TIME is rewritten to its other legal form: SCT-High only (whole seconds)
     #[serde(default)]
     pub sct_high_only: bool,
+    /// two instances: the older one has the HIGHER instance id (fdt_start_id = 2^20 - 1, the id wraps)
+    #[serde(default)]
+    pub id_wrap: bool,
+    /// two instances: the newer instance is published after the older one expired, and A's packets arrive in
+    /// between (A waits for an FDT when the newer instance, which does not list it, arrives)
+    #[serde(default)]
+    pub a_before_newer: bool,
 }
 
 /// The datagram as it is delivered: flute's own, or with EXT_TIME re-encoded as SCT-High only.
@@ -89,6 +96,8 @@ pub fn gen(rng: &mut Rng, _tier: Tier) -> Scn {
         two_instances: rng.chance(0.3),
         second_after_us: rng.range(1_000, (duration_s * 1_000_000).min(40_000_000)),
         sct_high_only: rng.chance(0.3),
+        id_wrap: rng.chance(0.4),
+        a_before_newer: rng.chance(0.3),
     }
 }
 
@@ -135,6 +144,11 @@ fn run_two(scn: &Scn, ctx: &Ctx, scratch: &Path) {
     spec.fdt_duration_ms = scn.duration_s * 1000;
     spec.fdt_inband_sct = scn.sct;
     spec.full_fdt = false; // being-transferred mode: each instance lists the object in transmission only
+    if scn.id_wrap {
+        spec.fdt_start_id = 0xFFFFF;
+    }
+    // (variant) the second object is added once the first instance has expired
+    let second_after_us = if scn.a_before_newer { scn.duration_s * 1_000_000 + 6_000_000 } else { scn.second_after_us };
     spec.queues = vec![(0, 1)];
     spec.fdt_carousel = CarouselSpec::DelayMs(1_000_000_000);
     let (b, e) = (4u32, 8u16);
@@ -145,14 +159,14 @@ fn run_two(scn: &Scn, ctx: &Ctx, scratch: &Path) {
     };
     let mut poll = PollSpec::simple(1000);
     poll.start_us = scn.publish_frac_us;
-    poll.gap = GapSpec::ListUs(vec![scn.second_after_us, 1000, 1000, 1000]);
+    poll.gap = GapSpec::ListUs(vec![second_after_us, 1000, 1000, 1000]);
     poll.idle_polls_after_done = 0;
     let s = SenderScn {
         spec,
         objects: vec![mk(0), mk(1)],
         ops: vec![
             TimedOp { when: When::AtUs(0), op: Op::Add(0) },
-            TimedOp { when: When::AtUs(scn.publish_frac_us + scn.second_after_us), op: Op::Add(1) },
+            TimedOp { when: When::AtUs(scn.publish_frac_us + second_after_us), op: Op::Add(1) },
         ],
         poll,
         snapshots: false,
@@ -188,7 +202,12 @@ fn run_two(scn: &Scn, ctx: &Ctx, scratch: &Path) {
         rr.offset_us = off * 1_000_000;
         let ep = EndpointSpec::default_ep().build();
         // everything but A's packets arrives with the FDT transit delay; A's packets arrive at t_o, after all of it
-        let t_o_eff = t_o.max(last_emit + scn.fdt_delay_us + 1);
+        let t_o_eff = if scn.a_before_newer {
+            // after the older instance expired (outside the 2 s band), before the newer one arrives
+            t_e + scn.duration_s * 1_000_000 + 3_500_000 + scn.fdt_delay_us.min(1_000_000)
+        } else {
+            t_o.max(last_emit + scn.fdt_delay_us + 1)
+        };
         let mut dl: Vec<(u64, &Emitted)> = sess.trace.pkts.iter().map(|p| if p.dec.toi == toi_a { (t_o_eff, p) } else { (p.t_us + scn.fdt_delay_us, p) }).collect();
         dl.sort_by_key(|x| (x.0, x.1.idx));
         for (t, p) in dl {
@@ -388,6 +407,8 @@ impl Prop for C19 {
         };
         push(&|n| n.jump_s = 0);
         push(&|n| n.sct_high_only = false);
+        push(&|n| n.id_wrap = false);
+        push(&|n| n.a_before_newer = false);
         push(&|n| n.fdt_delay_us = 0);
         push(&|n| n.scheme = Scheme::NoCode);
         push(&|n| n.inband = true);
